@@ -101,6 +101,7 @@ type mSSHConn struct {
 	conn    ssh.Conn
 	used    string
 	authErr string
+	bound   bool
 }
 
 type sshWorld struct {
@@ -115,7 +116,8 @@ type sshWorld struct {
 	mu      sync.Mutex
 	pol     [2]string
 	dials   map[int]*mSSHConn
-	answers map[string]*mSSHConn
+	answers map[string]*mSSHConn // latest connection each peer opened to M
+	ansConn map[int]*mSSHConn    // model connection -> connection
 	wire    [][]string
 	tcps    []net.Conn
 }
@@ -124,7 +126,7 @@ var loopback = netip.MustParseAddr("127.0.0.1")
 
 func newSSHWorld(r *run) (world, error) {
 	w := &sshWorld{r: r, raw: map[string]*sshswarm.Swarm{}, wrap: map[string]p2p.SecureAskSwarm[sshswarm.Addr, sshswarm.PublicKey]{},
-		ports: map[string]uint16{}, pol: [2]string{"M", "own"}, dials: map[int]*mSSHConn{}, answers: map[string]*mSSHConn{}}
+		ports: map[string]uint16{}, pol: [2]string{"M", "own"}, dials: map[int]*mSSHConn{}, answers: map[string]*mSSHConn{}, ansConn: map[int]*mSSHConn{}}
 	w.ctx, w.cf = context.WithCancel(context.Background())
 	for _, n := range []string{"A", "B"} {
 		n := n
@@ -287,6 +289,21 @@ func (w *sshWorld) MListen(k, proof string) {
 	w.mu.Unlock()
 }
 
+func (w *sshWorld) BindAnswer(c int, peer string) {
+	// M's side of a connection may be registered a moment after the dialler's call returned
+	for i := 0; i < 30; i++ {
+		w.mu.Lock()
+		if a := w.answers[peer]; a != nil && !a.bound {
+			a.bound = true
+			w.ansConn[c] = a
+			w.mu.Unlock()
+			return
+		}
+		w.mu.Unlock()
+		time.Sleep(10 * time.Millisecond)
+	}
+}
+
 func (w *sshWorld) MDial(c int, t string) string {
 	tcp, err := net.DialTimeout("tcp", net.JoinHostPort("127.0.0.1", strconv.Itoa(int(w.ports[t]))), 2*time.Second)
 	w.mu.Lock()
@@ -360,7 +377,7 @@ func (w *sshWorld) mconn(c int, role, peer string) *mSSHConn {
 	if role == "dial" {
 		return w.dials[c]
 	}
-	return w.answers[peer]
+	return w.ansConn[c]
 }
 
 func (w *sshWorld) MUsed(c int, role, peer string) (string, bool) {
